@@ -19,7 +19,7 @@ def validate_everything(b, tag):
 def corner_cases(tier):
     def fn(b, sym):
         case = sym.choose("case", ["empty-root", "only-empty-dirs", "sf-below-nested", "sf-folder-empty", "exit-10", "exit-11", "new-files",
-                                   "n-flag", "renames", "flatten", "flatten-failed", "creator", "formats", "nested-n", "sf-then-folder", "special-names"])
+                                   "n-flag", "renames", "flatten", "flatten-failed", "creator", "formats", "nested-n", "sf-then-folder", "special-names", "format-history-order"])
         b.note(case)
         if case == "empty-root":
             b.mkdir("R")
@@ -104,6 +104,15 @@ def corner_cases(tier):
             b.mkfile("R/d/b.txt", 2)
             r = b.run("create", root="R", h=["md5"], sf=["R/a.txt"])
             r = b.run("create", root="R", h=["md5", "sha1"])
+        elif case == "format-history-order":
+            b.mkfile("R/a.txt", 1)
+            b.mkfile("R/d/b.txt", 2)
+            order = sym.choose("introduced", [["xxh64", "md5"], ["xxh64", "c4"], ["sha1", "md5", "c4"], ["xxh3", "xxh128"]])
+            for f in order:
+                r = b.run("create", root="R", h=[f])
+            r = b.run("create", root="R", h=order)
+            if sym.flag("then_flatten"):
+                r = b.run("flatten", root="R", dest="OUT")
         elif case == "special-names":
             # folder and file names with XML-special characters, several generations (earlier chain entries are rewritten), flatten twice
             root = "Cam A&B <1>"
@@ -141,10 +150,10 @@ LEVEL_NOTE = ("XSD validity is decided in the model by xsdmini, a content-model/
 def harnesses(tier):
     return [
         Harness("c11-corners", corner_cases(tier), frontier=5, budget_s=2400, conformance=8,
-                what="16 scenario families (empty root, only empty dirs, -sf below a nested history, -sf on an empty folder, runs exiting 10/11, "
+                what="17 scenario families (empty root, only empty dirs, -sf below a nested history, -sf on an empty folder, runs exiting 10/11, "
                      "new files, -n, renames with -dr, flatten incl. failed entries, all 63 creator-option subsets, all 63 format subsets x order x "
                      "repeated -h, nested -n, -sf then folder): every written *.mhl / chain / collection validated",
-                bounds={"cases": 16, "formats": "all non-empty subsets of the six, either order, optional repeated -h"},
+                bounds={"cases": 17, "formats": "all non-empty subsets of the six, either order, optional repeated -h"},
                 outside=["overlapping -sf selections (same file sealed twice in one run)", "syntactically invalid e-mail addresses",
                          "equivalence of xsdmini and libxml2 beyond the constructs the two XSDs use (checked differentially, not proved)"]),
         Harness("c11-xsdmini", selfcheck, mode="unit", frontier=1, budget_s=600, twin_paths=1, conformance=0, real=True,
